@@ -234,6 +234,11 @@ End WHFast.
 Arguments part {P J} _. Arguments pjh {P J} _. Arguments is_sync {P J} _. Arguments recalc {P J} _. Arguments alloc {P J} _.
 Arguments Build_wst {P J} _ _ _ _ _.
 
+(* reb_integrator_part1 / reb_integrator_part2 (src/integrator.c): with no particles (r->N == 0) the WHFast, SABA, MERCURIUS
+   (and WHFast512, TRACE) code is not entered at all; part2 only advances t and dt_last_done.  On the integrator state a
+   step of an empty simulation is the identity; N_allocated == N == 0 holds from the start (no cache is ever allocated). *)
+Definition guarded {S : Type} (empty : bool) (step : S -> S) (s : S) : S := if empty then s else step s.
+
 (* ================================================================== SABA *)
 Section SABA.
 Context {T : Type} (N : Num T).
